@@ -357,6 +357,9 @@ structure GeneResult where
   region : Nat
   modules : List Module
   index : Nat := 0
+  /-- the gene had no module at all when it was handled (only docking domains or motif hits);
+      bookkeeping for the spec, never read by the loop -/
+  bare : Bool := false
 deriving Repr
 
 /-- one iteration: `results` holds the genes handled so far (the last one is `prev` when
@@ -369,7 +372,7 @@ def chainGo : List Gene → List GeneResult → Bool → Except Err (List GeneRe
       match build g.domains g.name with
       | .error e => .error e
       | .ok modules =>
-        let info : GeneResult := ⟨g.name, g.strand, g.region, modules, g.index⟩
+        let info : GeneResult := ⟨g.name, g.strand, g.region, modules, g.index, modules.isEmpty⟩
         match (if prevLive then results.getLast? else none) with
         | some prev =>
           if !prev.modules.isEmpty && !info.modules.isEmpty && prev.region == info.region then
